@@ -611,6 +611,17 @@ DIRECTIVE_ADJACENT = [
 ]
 
 
+REDEF_FORMS = ('f x', 'f  x ', 'f y', 'f x x', 'f', 'f() x', 'f(a) x', 'f(b) x', 'f( a ) x', 'f(a) a', 'f(b) b', 'f(a,b) x', 'f(b,a) x',
+               'f(...) x', 'f(a,...) x', 'f(a) a+x', 'f(a) a + x', 'f(a) a  +  x', 'f(a) #a', 'f(a) # a', 'f (a) x')
+
+
+def m3_redefinitions():
+    """Every ordered pair of definitions of f (6.10.3p2), followed by a use."""
+    for d1 in REDEF_FORMS:
+        for d2 in REDEF_FORMS:
+            yield '#define %s\n#define %s\nf\n' % (d1, d2)
+
+
 def m3_sources(full):
     out = []
     for defs, text in ((EX3_DEFS, EX3_TEXT), (EX4_DEFS, EX4_TEXT), (EX7_DEFS, EX7_TEXT)):
@@ -618,6 +629,7 @@ def m3_sources(full):
     out.extend(EX6)
     out.extend(m3_stringify(full))
     out.extend(m3_variadic())
+    out.extend(m3_redefinitions())
     out.extend(KEYWORD_CASES)
     out.extend(DEFINITION_CASES)
     out.extend(DIRECTIVE_ADJACENT)
